@@ -13,6 +13,7 @@ import (
 	"worldcoin/gnark-mbu/prover"
 
 	"verifharness/ref"
+	"verifharness/stats"
 )
 
 // C08 — the off-chain input-hash helpers agree with the circuit and the on-chain packing.
@@ -167,8 +168,8 @@ func runC08(c c08Case) Result {
 			class += "/short-value"
 		}
 		return ok(class, short || bigIdx)
-	case "cli":
-		class := "cli/" + c.Mode
+	case "cli", "cli-sweep":
+		class := c.Kind + "/" + c.Mode
 		r := runCLI(120*time.Second, nil, nil, "gen-test-params", "--mode", c.Mode, "--tree-depth", fmt.Sprint(c.Depth), "--batch-size", fmt.Sprint(c.Batch))
 		if r.ExitCode != 0 || r.TimedOut {
 			return bad(class, "gen-test-params:exit", "gen-test-params %s %d %d: exit %d timedOut=%v stderr=%s", c.Mode, c.Depth, c.Batch, r.ExitCode, r.TimedOut, tail(r.Stderr, 300))
@@ -190,7 +191,11 @@ func runC08(c c08Case) Result {
 			return bad(class, "gen-test-params:"+c08Sig(m), "gen-test-params %s depth %d batch %d: emitted inputHash %s, Keccak of the on-chain packing of the emitted fields is %s (pre %d bytes, post %d bytes)",
 				c.Mode, c.Depth, c.Batch, m.InputHash.Text(16), want.Text(16), len(m.PreRoot.Bytes()), len(m.PostRoot.Bytes()))
 		}
-		if err := circuitAccepts(m, c.Depth, m.InputHash); err != nil {
+		if c.Kind == "cli-sweep" {
+			if v, why := paramsValid(m, c.Depth, c.Batch); !v {
+				return bad(class, "gen-test-params:invalid-batch", "gen-test-params %s depth %d batch %d: the emitted batch does not satisfy the reference relation (%s)", c.Mode, c.Depth, c.Batch, why)
+			}
+		} else if err := circuitAccepts(m, c.Depth, m.InputHash); err != nil {
 			return bad(class, "gen-test-params:unprovable", "gen-test-params %s depth %d batch %d: emitted parameters are rejected by the circuit: %s", c.Mode, c.Depth, c.Batch, errStr(err))
 		}
 		if len(m.PreRoot.Bytes()) < 32 || len(m.PostRoot.Bytes()) < 32 {
@@ -277,7 +282,7 @@ func parseParamsDoc(mode string, raw []byte) (*mParams, error) {
 }
 
 func parseHex(s string) (*big.Int, error) {
-	if !strings.HasPrefix(s, "0x") || len(s) < 3 {
+	if !(strings.HasPrefix(s, "0x") || strings.HasPrefix(s, "0X")) || len(s) < 3 {
 		return nil, fmt.Errorf("not a 0x-hex number: %q", s)
 	}
 	v, okk := new(big.Int).SetString(s[2:], 16)
@@ -317,6 +322,43 @@ func init() {
 
 func TestC08_Helpers(t *testing.T) {
 	RunRapid(t, Check[c08Case]{Prop: "C08", Test: "TestC08_Helpers", Gen: genC08, Run: runC08})
+}
+
+// TestC08_CLISweep enumerates EVERY (mode, depth, batch 1..12) that gen-test-params supports and applies the cheap
+// part of the oracle: well-formed output of the requested dimensions, inputHash = reference packing hash of the
+// emitted fields, and the emitted batch satisfies the reference relation (the circuit itself is run on the drawn
+// sample in TestC08_CLI).
+func TestC08_CLISweep(t *testing.T) {
+	if cliPath() == "" {
+		t.Fatal("VERIF_CLI not set")
+	}
+	col := stats.New("C08", "TestC08_CLISweep")
+	defer col.Flush()
+	col.SetExhaustive(true)
+	shard, nsh := Shard(), NShards()
+	RunEnum(t, col, "C08", "TestC08_CLISweep", func(yield func(c08Case) bool) {
+		n := 0
+		for _, mode := range []string{"insertion", "deletion"} {
+			maxDepth, need := 32, uint64(1)
+			if mode == "deletion" {
+				maxDepth, need = 31, 2
+			}
+			for depth := 1; depth <= maxDepth; depth++ {
+				for batch := 1; batch <= 12; batch++ {
+					if uint64(batch)*need > uint64(1)<<uint(depth) {
+						continue
+					}
+					n++
+					if n%nsh != shard {
+						continue
+					}
+					if !yield(c08Case{Kind: "cli-sweep", Mode: mode, Depth: depth, Batch: batch}) {
+						return
+					}
+				}
+			}
+		}
+	}, runC08)
 }
 
 func TestC08_CLI(t *testing.T) {
